@@ -8,7 +8,8 @@ From stdpp Require Import gmap.
 From OV Require Import Base.Bytes Base.Cases Model.Js Proofs.Js.
 Import ListNotations.
 
-Definition r0 : rt := mk_rt [(10%N, (false, true)); (11%N, (false, false))] [12%N; 13%N].
+Definition r0 : rt := mk_rt [(10%N, (JOpaque false, true)); (11%N, (JNum NNaN, false))]
+                           [(12%N, JOpaque true); (13%N, JOpaque false)].
 Definition ret_node : sexpr := SVar NODE.
 Definition compile0 : N -> option script := compile_of [(1%N, Some ret_node); (2%N, Some (STypeof 10%N))].
 
